@@ -585,6 +585,8 @@ def stages(ctx, prop, bins):
     nseq, ntab, nmap, nops = (400, 400, 120, 45) if q else (5000, 5000, 1500, 70)
     seqkinds = ("list", "array", "poollist") if prop == "C04" else ("list", "list", "poollist", "poollist", "array")
     rs = [rand_seq(ctx.rng, nops, seqkinds) for _ in range(nseq)]
+    # pools of element types whose size is not a multiple of the pointer size (item stride / alignment)
+    rs.append(["new 1 poollist 0", "new 2 poollist 0"] + ["poolsmall 1 0 %d" % n for n in (1, 3, 4, 5, 9, 13, 40)])
     rt = [rand_table(ctx.rng, nops) for _ in range(ntab)]
     rm = [rand_map(ctx.rng, nops + 15, multi, nk) for multi in (False, True) for nk in (4, 9, 16) for _ in range(nmap // 6)]
     st.append(lambda: check(ctx, prop, "seq", bseq, rs, "random_seq"))
